@@ -10,7 +10,8 @@ import json
 import sys
 
 from harness import seams  # noqa
-from harness.runner import Check, jdec
+from harness.runner import Check, jdec, merge_stats
+from harness import collide as C
 from harness import protocol as P
 from harness import scenarios as S
 from harness import kernel as K
@@ -327,13 +328,14 @@ def cases():
     # (c') two negotiations in progress at once (different IKE_SAs of one connection after a simultaneous initiation,
     # or queued behind each other on one IKE_SA), with INVALID_KE retries on the way
     conc = ('newA', 'rekeyChildA', 'rekeyChildA~', 'rekeyIkeA', 'rekeyIkeA~', 'newB', 'rekeyChildB~')
-    for start in ('double', 'invalid-ke'):
-        conf = S.base_confs(**ke)
+    pfs = dict(a_entry={'dh': ['19']}, b_entry={'dh': ['19']})
+    for start in ('double', 'invalid-ke', 'pfs'):
+        conf = S.base_confs(**ke) if start != 'pfs' else S.base_confs(**pfs)
         for x, y in itertools.product(conc, repeat=2):
             if x == y or (ck.quick and start == 'invalid-ke' and (x.endswith('~') or y.endswith('~'))):
                 continue
             out.append(dict(label='concurrent:%s:%s|%s' % (start, x, y), confs=conf, ops=('%s|%s' % (x, y), 'rekeyChildA', 'rekeyChildB~'),
-                            start=start))
+                            start=start if start != 'pfs' else 'plain'))
     return out
 
 
@@ -345,8 +347,52 @@ def work(i):
     return run_case(c)
 
 
+# ------------------------------------------------------------------ the collision space (harness/collide.py) with the mirror oracle
+
+def collision_scenarios():
+    if ck.quick:
+        return [dict(config='pfs', kinds=('acquire', 'soft', 'rekey_ike'), budget=dict(trig=2, fault=0)),
+                dict(config='ke-mismatch', kinds=('acquire', 'soft', 'rekey_ike'), budget=dict(trig=2, fault=0))]
+    return [dict(config=c, kinds=('acquire', 'soft', 'hard', 'rekey_ike'), budget=b)
+            for c in ('pfs', 'ke-mismatch', 'match') for b in (dict(trigA=2, trigB=2, fault=0), dict(trig=2, fault=1))]
+
+
+def sm_mirror(world):
+    """from every state: lossless continuation to quiescence, then every SA both kernels hold must be a mirror image
+    (whether both hold the same set is C09's / C10's question, not asked here)"""
+    w, status = P.drain(world)
+    if status != 'quiescent' or any(not e.alive for e in w.endpoints.values()):
+        return
+    C.COVER['M-mirror:quiescent-worlds'] += 1
+    C.COVER['M-mirror:sa-pairs-compared'] += len(set(w.endpoints['A'].kernel.sad) & set(w.endpoints['B'].kernel.sad))
+    seen = set()
+    for sig, msg in mirror_problems(w):
+        if sig.startswith(('mirror:', 'alg-attributes', 'ike-keys-differ')) and sig not in seen:
+            seen.add(sig)
+            yield ('M-mirror', sig, msg)
+
+
+def run_collision(i):
+    sc = collision_scenarios()[i]
+    ex = C.explore(sc, [], [sm_mirror], quick=ck.quick, max_states=None if ck.quick else 300000, jobs=0 if ck.quick else ck.jobs)
+    return ex.summary()
+
+
+def replay_collision(doc):
+    w = C.build(doc['scenario'])
+    for ev in doc['history']:
+        P.apply_event(w, ev)
+    res = list(sm_mirror(w))
+    for r in res:
+        print('reproduced:', r[0], r[1], r[2])
+    print('REPLAY %s' % ('reproduces a violation' if res else 'does not reproduce'))
+    sys.exit(1 if res else 0)
+
+
 def replay(path):
     doc = jdec(json.load(open(path)))
+    if 'scenario' in doc:
+        replay_collision(doc)
     global CASES
     CASES = cases()
     idx = [i for i, c in enumerate(CASES) if c['label'] == doc['label']]
@@ -370,7 +416,13 @@ def main():
     validated = 0
     for i, r2 in zip(again, ck.pmap(work, again)):
         if r2[2] != results[i][2]:
-            raise HarnessError('case %s is not deterministic: two runs differ' % CASES[i]['label'])
+            # the same case gave different observations in two worker processes: what the code under test does depends on
+            # what the process did before (state shared between negotiations).  If one of the runs breaks the property
+            # that is the report; only if both are clean is it a problem of the harness.
+            if not r2[0] and not results[i][0]:
+                raise HarnessError('case %s is not deterministic: two runs differ' % CASES[i]['label'])
+            results[i] = (results[i][0] + [x for x in r2[0] if x not in results[i][0]], results[i][1], results[i][2])
+            continue
         validated += 1
     for c, (probs, completed, _) in zip(CASES, results):
         total_negotiations += completed
@@ -379,11 +431,22 @@ def main():
         for sig, msg in probs:
             gen = c['label'] if fam not in ('history', 'concurrent') else '%s:%s' % (fam, c['label'].split(':')[1])
             ck.violation('%s:%s' % (sig, gen), '%s [case %s]' % (msg, c['label']), dict(label=c['label']))
-    ck.coverage.update(states=total_negotiations + len(CASES), transitions=total_negotiations, evaluations=len(CASES),
-                       distinct_nontrivial=len({c['label'] for c in CASES}), traces_validated_against_impl=validated,
+    # all interleavings of two colliding negotiations (PFS, INVALID_KE retries), each continued to quiescence
+    scs = collision_scenarios()
+    cstats = []
+    for sc, sm in zip(scs, (ck.pmap(run_collision, range(len(scs))) if ck.quick else map(run_collision, range(len(scs))))):
+        ck.add_explorer_violations(sm, sc)
+        cstats.append({k: v for k, v in sm.items() if k not in ('violation_list', 'samples')})
+        print('  collision scenario', cstats[-1])
+    cm = merge_stats(cstats)
+    ck.coverage.update(collision_space=dict(states=cm['states'], transitions=cm['transitions'], max_depth=cm['max_depth'],
+                                            replays_validated=cm['replays_validated'], caps_hit=cm['caps_hit'],
+                                            completed=cm['completed'], per_scenario=cstats, bounds=[C.label(s) for s in scs]))
+    ck.coverage.update(states=total_negotiations + len(CASES) + cm['states'], transitions=total_negotiations + cm['transitions'], evaluations=len(CASES),
+                       distinct_nontrivial=len({c['label'] for c in CASES}), traces_validated_against_impl=validated + cm['replays_validated'], caps_hit=cm['caps_hit'],
                        rule='one evaluation = one case (configuration pair + history of negotiations run to completion, each '
                             'followed by the mirror / key comparison); transitions = negotiations completed and judged',
-                       samples=[c['label'] for c in CASES[::max(1, len(CASES) // 30)]][:30], exhaustive=True,
+                       samples=[c['label'] for c in CASES[::max(1, len(CASES) // 30)]][:30], exhaustive=bool(cm['completed']),
                        cases_per_family=dict(fam_counts), negotiations_judged=total_negotiations,
                        bounds='histories up to length %d over %s from three kinds of start' % (2 if ck.quick else 3, list(OPS)))
     ck.assumptions += ['what a kernel would hold = model SAD fed with the netlink bytes of each daemon',
